@@ -405,7 +405,7 @@ func c05Replay(e *core.Env, data json.RawMessage) (bool, string) {
 	drv.Files(files)
 	var ctl func() *core.Ctx
 	if len(cs.Picks) > 0 {
-		ctl = func() *core.Ctx { return core.NewReplayCtx(cs.Picks, false) }
+		ctl = func() *core.Ctx { return core.NewReplayCtxNoMap(cs.Picks, false) }
 	}
 	o, ab := c05Observe(drv, ctl, root)
 	if ab != "" {
